@@ -325,6 +325,10 @@ def rule_meter(ctx):
 
 
 def run(ctx):
+    from ..report import SubCtx
+    from . import c05
+    sub_c05 = SubCtx(ctx, 'C12.wake', "beats advance at the current tempo only if every wake-up site re-schedules from the scheduled beat converted with the clock's current map, as decided for C05")
+    c05.rule_taint(sub_c05)
     rule_meter(ctx)
     rule_inv(ctx)
     rule_affine(ctx)
